@@ -18,7 +18,7 @@ META = {
                    'produces for the configured signal size); every output sample minus the waverec/waverec2 basis-response row '
                    'must stay within tau. For each mask of None levels the run with None is compared, on the signal extent, with '
                    'the full symbolic run after substituting zeros for that level (and with the oracle given zeros).',
-    'bounds': C01.META['bounds'],
+    'bounds': dict(C01.META['bounds'], added_families=C01.META['bounds'].get('added_families', []) + ['None levels also with per-axis pairs', 'same instance called on a float32 pyramid first (f32call)']),
     'outside': C01.META['outside'] + '; None-masks: all 2^J for J<=2, three masks for J=3',
     'assumptions': C01.META['assumptions'] + ['signal extent of a pyramid = the size whose wavedec gave its shapes'],
 }
